@@ -105,8 +105,10 @@ func vC16Broker(maxConn int) *Broker {
 	b := &Broker{egName: "eg", name: "mqtt", spec: &Spec{MaxAllowedConnection: maxConn}, clients: map[string]*Client{},
 		pipelines: map[PacketType]string{}, topicMgr: &TopicManager{root: newNode(), levelMgr: &topicLevelManager{}},
 		connectionLimiter: &Limiter{}, done: make(chan struct{})}
+	verifInitMaps(b) // maps a bypassed constructor would have made
 	vStore = &vStorage{kv: map[string]string{}}
 	b.sessMgr = &SessionManager{broker: b, store: vStore, storeCh: make(chan SessionStore, 64), done: make(chan struct{})}
+	verifInitMaps(b.sessMgr) // maps a bypassed constructor would have made
 	return b
 }
 
